@@ -571,7 +571,7 @@ def _(ctx):
     stubs.update(flag_stubs(None))
     it = Interp(ctx.w, mode='sym', stubs=stubs, div_sides=False)
     it.nonfinite_unknown = True
-    it.loop_contracts[('MSSMNoFV_onshell::convert_me2_fpi_modify', 0)] = LoopContract(
+    it.loop_contracts[('MSSMNoFV_onshell::convert_me2_fpi_modify', frozenset({'precision_goal', 'max_iterations'}))] = LoopContract(   # the loop whose condition tests the goal and the iteration limit (while or for)
         modifies=['right_index', 'MSm_goal', 'precision', 'it', 'this.me2', 'this.MSm', 'this.ZM'],
         invariant=me2_invariant, choices={'right_index': [0, 1]},
         variant=lambda it_, fr: maxit - z3real(fr.lookup('it').v))
@@ -784,7 +784,7 @@ def make_mu_loop_contract(POLE_IDX):
     stubs['detail::find_bino_like_neutralino'] = bino_by_contract
     it = Interp(ctx.w, mode='sym', stubs=stubs, div_sides=False)
     it.nonfinite_unknown = True
-    it.loop_contracts[('MSSMNoFV_onshell::convert_Mu_M1_M2', 0)] = LoopContract(
+    it.loop_contracts[('MSSMNoFV_onshell::convert_Mu_M1_M2', frozenset({'precision_goal', 'max_iterations'}))] = LoopContract(
         modifies=['bino_idx_DR', 'MChi_goal', 'precision', 'it', 'this.MassB', 'this.MassWB', 'this.Mu', 'this.MCha', 'this.MChi', 'this.ZN', 'this.UM', 'this.UP'],
         invariant=mu_invariant, choices={'bino_idx_DR': [0, 1, 2, 3]},
         variant=lambda it_, fr: maxit - z3real(fr.lookup('it').v))
